@@ -228,6 +228,26 @@ Proof.
   - intros nd p H. rewrite M. apply F. apply Hr. exact H.
 Qed.
 
+(* a physical qubit gets (or stays) marked in use and in flight without being mapped *)
+Lemma inv_mark s s' x :
+  Inv s -> keys_unique s' -> ~ mapped s (fst x) (snd x) ->
+  (forall k i p, um_of s' k i p <-> um_of s k i p) ->
+  (forall y, In y (used s') <-> y = x \/ In y (used s)) ->
+  (forall y, In y (resv s') <-> y = x \/ In y (resv s)) ->
+  registry_exact s' -> Inv s'.
+Proof.
+  intros (K & I & U & F & G) K' NM HU Hu Hr G'.
+  assert (M : forall nd p, mapped s' nd p <-> mapped s nd p).
+  { intros nd p. rewrite !mapped_um_of. split; intros (app & i & H); exists app, i; apply HU; exact H. }
+  split; [exact K'|]. split; [|split; [intros nd0 p0; split|split; [|exact G']]].
+  - apply injective_um_of. intros nd app i app' i' p H1 H2.
+    apply HU in H1, H2. revert H1 H2. apply (proj1 (injective_um_of s) I).
+  - intros H. apply Hu in H. rewrite M, Hr. destruct H as [H|H]; [right; left; exact H|].
+    apply U in H. tauto.
+  - intros H. apply Hu. rewrite M, Hr in H. destruct H as [H|[H|H]]; [right; apply U; auto | left; exact H | right; apply U; auto].
+  - intros nd p H. rewrite M. apply Hr in H. destruct H as [E|H]; [subst x; exact NM | exact (F _ _ H)].
+Qed.
+
 Lemma inv_add s s' nd app i p :
   Inv s -> keys_unique s' -> ~ mapped s nd p ->
   (forall k' i' p', um_of s' k' i' p' <-> (k' = (nd, app) /\ i' = i /\ p' = p) \/ um_of s k' i' p') ->
@@ -555,25 +575,34 @@ Proof.
 Qed.
 
 Lemma inv_do_keep s nd app a a1 qa ra p info :
-  Inv s -> app_of s (nd, app) = Some a -> a_um a1 = a_um a -> In (nd, p) (resv s) ->
+  Inv s -> app_of s (nd, app) = Some a -> a_um a1 = a_um a ->
+  (In (nd, p) (resv s) \/ ~ In (nd, p) (used s)) ->
   Inv (fst (do_keep s nd (nd, app) a1 qa ra p info)).
 Proof.
   intros HI Hk Hum Hr. unfold do_keep.
   pose proof HI as (K & I & U & F & G).
-  assert (Hin : In (nd, p) (used s)) by (apply U; right; exact Hr).
-  assert (Hu : forall x, In x (add2 (nd, p) (used s)) <-> In x (used s)).
-  { intros x. rewrite In_add2. split; [intros [->|H]; auto | auto]. }
+  assert (NM : ~ mapped s nd p).
+  { destruct Hr as [Hr|Hr]; [exact (F _ _ Hr) | intros HM; apply Hr; apply U; left; exact HM]. }
+  assert (MARK : Inv (mkSt (aset pair_eqb (nd, app) a1 (apps s)) (add2 (nd, p) (used s)) (mark_resv s nd p) (shreg s))).
+  { apply (inv_mark s _ (nd, p)); try assumption.
+    - apply keys_aset. exact K.
+    - intros k' i p'. rewrite um_of_aset. rewrite Hum. split.
+      + intros [[-> H]|[_ H]]; [exists a; auto | exact H].
+      + intros H. destruct (pair_dec k' (nd, app)) as [->|NE]; [|right; auto].
+        left. split; [reflexivity|]. destruct H as (a0 & H0 & H1). congruence.
+    - intros y. cbn [used]. apply In_add2.
+    - intros y. cbn [resv]. unfold mark_resv. destruct (mem2 (nd, p) (used s)) eqn:Em.
+      + apply mem2_In in Em. destruct Hr as [Hr|Hr]; [|contradiction]. split; [auto | intros [->|H]; auto].
+      + cbn [In]. split; intros [H|H]; auto.
+    - intros k'. cbn [shreg]. unfold registry_exact in G. rewrite G. symmetry. apply registered_aset. congruence. }
   destruct (aget Z.eqb qa (a_arrs a1)) as [[|[v|] l]|]; try (eapply inv_put_app; eauto).
   destruct (has_virtual (a_um a1) v); [eapply inv_put_app; eauto|].
   rewrite Hum.
-  destruct (slot (List.length (a_um a)) v) as [i| |];
-    try (cbn [fst]; eapply inv_put_same_um; eauto; tauto).
-  destruct (nth_error (a_um a) i) as [[q|]|] eqn:En;
-    try (cbn [fst]; eapply inv_put_same_um; eauto; tauto).
+  destruct (slot (List.length (a_um a)) v) as [i| |]; try (cbn [fst]; exact MARK).
+  destruct (nth_error (a_um a) i) as [[q|]|] eqn:En; try (cbn [fst]; exact MARK).
   cbn [fst].
   apply (inv_add s _ nd app i p); try assumption.
   - apply keys_aset. exact K.
-  - apply F. exact Hr.
   - intros k' i' p'. apply (um_of_set_slot s (nd, app) a); [exact Hk | exact En |].
     destruct (aget Z.eqb ra (a_arrs (with_um a1 (set_nth (a_um a) i (Some p))))); reflexivity.
   - intros x. cbn [used]. apply In_add2.
@@ -847,7 +876,7 @@ Theorem inv_without_fresh_refuted :
 Proof.
   exists (run init_state bad_history), bad_keep.
   split; [exact bad_reachable|]. split; [|split; [vm_compute; reflexivity|split]].
-  - intros H. specialize (H 0 eq_refl). vm_compute in H. exact H.
+  - intros H. specialize (H 0 eq_refl). destruct H as [H|H]; [vm_compute in H; exact H | apply H; vm_compute; left; reflexivity].
   - intros (_ & I & _).
     assert (E : 0 = 1 /\ O = O).
     { eapply (I 0 0 _ O 1 _ O 0); vm_compute; reflexivity. }
@@ -902,13 +931,16 @@ Proof.
     destruct (nth_error info 5); [|apply se_refl].
     destruct (nth_error info 6); [|apply se_refl].
     destruct (keep_prefix v qa ra z0 z a) as [a' [e|]]; [apply se_put|].
-    assert (A : forall x, fst x <> nd -> (In x (add2 (nd, p) (used s)) <-> In x (used s))).
-    { intros x Hx. rewrite In_add2. split; [intros [->|H]; [contradiction Hx; reflexivity | exact H] | auto]. }
+    assert (A : forall l x, fst x <> nd -> (In x (add2 (nd, p) l) <-> In x l)).
+    { intros l x Hx. rewrite In_add2. split; [intros [->|H]; [contradiction Hx; reflexivity | exact H] | auto]. }
     unfold do_keep. destruct (aget Z.eqb qa (a_arrs a')) as [[|[v'|] l]|]; try apply se_put.
     destruct (has_virtual _ v'); [apply se_put|].
-    destruct (slot _ v') as [i| |]; try (intros x Hx; cbn [fst used resv]; rewrite (A x Hx); tauto).
-    destruct (nth_error _ i) as [[q|]|]; try (intros x Hx; cbn [fst used resv]; rewrite (A x Hx); tauto).
-    intros x Hx. cbn [fst used resv]. rewrite (A x Hx), In_rem2. split; [tauto|].
+    assert (B : forall x, fst x <> nd -> (In x (mark_resv s nd p) <-> In x (resv s))).
+    { intros x Hx. unfold mark_resv. destruct (mem2 (nd, p) (used s)); [tauto|]. cbn [In].
+      split; [intros [<-|H]; [contradiction Hx; reflexivity | exact H] | auto]. }
+    destruct (slot _ v') as [i| |]; try (intros x Hx; cbn [fst used resv]; rewrite (A _ x Hx), (B x Hx); tauto).
+    destruct (nth_error _ i) as [[q|]|]; try (intros x Hx; cbn [fst used resv]; rewrite (A _ x Hx), (B x Hx); tauto).
+    intros x Hx. cbn [fst used resv]. rewrite (A _ x Hx), In_rem2. split; [tauto|].
     split; [tauto|]. intros H. split; [exact H|]. intros ->. apply Hx. reflexivity.
 Qed.
 
